@@ -5,7 +5,8 @@ A line `<op line> @w` is the same mathematical operation as `<op line>`, evaluat
 AND the intermediate / result objects the library builds itself — is asked every argument-less public question
 (properties, data attributes, methods callable without arguments, str / repr / hash / len) right after its constructor
 returns, and every list / dict / set that a METHOD returned (exported dictionaries, qualifier exports) is edited in place
-by the "caller" (`_scribble`).  Lazily filled fields, `lru_cache`d methods, flag-switched code paths and shared containers are therefore in
+by the "caller" (`_scribble`); a transcript / feature has also been a member of a gene / feature collection that was asked
+everything (`_membership_history`).  Lazily filled fields, `lru_cache`d methods, flag-switched code paths and shared containers are therefore in
 their "used" state before the operation's own question is asked.  The Lean drivers get the line WITHOUT the marker
 (the model and the specification are functions of the mathematical operands), so any influence of the history on the
 real answer shows up as a disagreement and as a failed verdict.
@@ -63,7 +64,7 @@ def _scribble(v, depth=0):
         v.add(_SENTINEL)
 
 
-def ask_everything(obj):
+def ask_everything(obj, _top=True):
     """every argument-less public question, answers discarded, exceptions ignored (a question an object cannot answer,
     e.g. a sequence accessor without sequence, raises the same way for a fresh object)"""
     from harness.impl_history import introspected
@@ -91,6 +92,33 @@ def ask_everything(obj):
             q(obj)
         except Exception:  # noqa
             pass
+    if _top:
+        _membership_history(obj)
+
+
+def _membership_history(obj):
+    """A leaf interval that has ALREADY been a member of an aggregate: a transcript is put into a gene together with a
+    sibling isoform (one exon covering the whole locus), a feature into a feature collection with a sibling feature;
+    the aggregate is asked every argument-less question (merged transcript / CDS / feature, primary accessors,
+    exports ...) and dropped.  Aggregates must read their members, never change them."""
+    try:
+        from inscripta.biocantor.gene.transcript import TranscriptInterval
+        from inscripta.biocantor.gene.feature import FeatureInterval, FeatureIntervalCollection
+        from inscripta.biocantor.gene.gene import GeneInterval
+        parent = getattr(obj, "_parent_or_seq_chunk_parent", None)
+        if type(obj) is TranscriptInterval:
+            sib = TranscriptInterval([obj.start], [obj.end], obj.strand, parent_or_seq_chunk_parent=parent,
+                                     transcript_id="warm-sibling")
+            agg = GeneInterval([obj, sib], parent_or_seq_chunk_parent=parent)
+        elif type(obj) is FeatureInterval:
+            sib = FeatureInterval([obj.start], [obj.end], obj.strand, parent_or_seq_chunk_parent=parent,
+                                  feature_id="warm-sibling")
+            agg = FeatureIntervalCollection([obj, sib], parent_or_seq_chunk_parent=parent)
+        else:
+            return
+    except Exception:  # noqa  (no aggregate can be built around this object: nothing to do)
+        return
+    ask_everything(agg, _top=False)
 
 
 @contextlib.contextmanager
